@@ -3,8 +3,14 @@
 
 Anchors: `dashlive/server/requesthandler/csrf.py:92-126` (`generate_token`),
 `:128-189` (`check`), `dashlive/server/models/token.py:84-92` (salt length 8, `Token`
-rows of type CSRF are the consumed tokens), `:145-156` (`prune_database`; its only
-caller is `create_app`, `app.py:188`, with `all_csrf=True`, i.e. at every server start).
+rows of type CSRF are the consumed tokens; each record is stamped `expires = now + 20 min`,
+`KEY_LIFETIMES[CSRF]`, csrf.py:166), `:145-156` (`prune_database`: deletes every row with
+`expires < now`, and every CSRF row when `all_csrf`; its only caller is `create_app`,
+`app.py:188`, with `all_csrf=True`, i.e. at every server start – `Gen.Routes.pruneSites`).
+
+Time: the state carries the clock (seconds) and every replay record its expiry.  The token
+itself carries no timestamp, so the record is the only thing that stops a second use; the
+clock matters only through `pruneExpired`.
 
 Strings are `List Char`.  The MAC – `str(base64.b64encode(hmac_sha1(secret, ·)))` – is an
 abstract function `mac`; HMAC itself is not modelled.  HMAC's `update` calls concatenate,
@@ -54,25 +60,33 @@ inductive Result
   | badSignature
   deriving DecidableEq, Repr
 
-/-- the `Token` rows of type CSRF: every token string `check` has got as far as recording -/
+/-- `KEY_LIFETIMES[TokenType.CSRF]` = 20 minutes (token.py:52), in seconds -/
+def recordLifetime : Nat := 1200
+
+/-- the `Token` rows of type CSRF – (token string, `expires`) for every token `check` has got as
+far as recording – and the clock `datetime.now()` reads -/
 structure St where
-  used : List Str
+  used : List (Str × Nat)
+  now : Nat := 0
   deriving Repr
 
-def St.empty : St := { used := [] }
+def St.empty : St := { used := [], now := 0 }
+
+/-- the recorded token strings (`jti` column) -/
+def St.tokens (st : St) : List Str := st.used.map Prod.fst
 
 /-- `CsrfProtection.check(service, token)` for a request carrying `cookie` and `origin`.
-Order as in the code: cookie tests, re-use lookup, **record the token (and commit)**,
-only then split off the salt and compare signatures – so a token with a wrong
-signature is consumed too. -/
+Order as in the code: cookie tests, re-use lookup (by `jti` only – the lookup does not look at
+`expires`), **record the token with `expires = now + 20 min` (and commit)**, only then split off
+the salt and compare signatures – so a token with a wrong signature is consumed too. -/
 def check (c : Cfg) (st : St) (service : Str) (cookie : Option Str) (origin token : Str) : St × Result :=
   match cookie with
   | none => (st, .noCookie)
   | some ck =>
     if ck = [] then (st, .noCookie)
-    else if token ∈ st.used then (st, .reuse)
+    else if token ∈ st.tokens then (st, .reuse)
     else
-      let st' : St := { used := token :: st.used }
+      let st' : St := { st with used := (token, st.now + recordLifetime) :: st.used }
       let salt := token.take saltLen
       let sig := token.drop saltLen
       if sig = c.mac (message c.strictOrigin ck service origin salt) then (st', .accepted)
@@ -84,47 +98,79 @@ def check (c : Cfg) (st : St) (service : Str) (cookie : Option Str) (origin toke
 def checkWire (c : Cfg) (st : St) (service : Str) (cookie : Option Str) (origin wire : Str) : St × Result :=
   check c st service cookie origin (c.unquote wire)
 
-/-- `Token.prune_database(all_csrf=True)`: every CSRF row is deleted -/
-def prune (_ : St) : St := { used := [] }
+/-- `Token.prune_database(all_csrf=True)` as `create_app` calls it at every server start:
+every CSRF row is deleted -/
+def prune (st : St) : St := { st with used := [] }
+
+/-- `Token.prune_database(all_csrf=False)`: `delete … where expires < now` – records that are
+still live (`now ≤ expires`) stay.  No request handler calls it (`Gen.Routes.pruneSites`,
+theorem `no_handler_prunes`); it is modelled because the function exists. -/
+def pruneExpired (st : St) : St := { st with used := st.used.filter fun p => !(p.2 < st.now) }
 
 inductive Ev
   | check (service : Str) (cookie : Option Str) (origin token : Str)
+  /-- server restart -/
   | prune
+  /-- `prune_database(all_csrf=False)` -/
+  | pruneExpired
+  /-- the clock reads `now` from here on (any value: jumps forward across the record and token
+  lifetimes, or backwards) -/
+  | tick (now : Nat)
+  /-- any other request of any user – login, logout, token refresh, page views, state changes:
+  none of them touches a CSRF replay record -/
+  | request
   deriving Repr
 
+/-- the event deletes replay records -/
 def Ev.isPrune : Ev → Bool
   | .prune => true
+  | .pruneExpired => true
   | _ => false
 
 /-- the token a `check` event presents -/
 def Ev.token? : Ev → Option Str
   | .check _ _ _ t => some t
-  | .prune => none
+  | _ => none
 
-/-- result of one event (`none` for a prune) -/
+/-- result of one event (`none` unless it is a check) -/
 def step (c : Cfg) (st : St) : Ev → St × Option Result
   | .check svc ck o t => let (st', res) := check c st svc ck o t; (st', some res)
   | .prune => (prune st, none)
+  | .pruneExpired => (pruneExpired st, none)
+  | .tick n => ({ st with now := n }, none)
+  | .request => (st, none)
 
 /-- run a history from a state; one output per event -/
 def run (c : Cfg) : St → List Ev → List (Ev × Option Result)
   | _, [] => []
   | st, e :: es => let (st', res) := step c st e; (e, res) :: run c st' es
 
+/-- the state after a history -/
+def final (c : Cfg) : St → List Ev → St
+  | st, [] => st
+  | st, e :: es => final c (step c st e).1 es
+
 /-- a history as it arrives on the wire: `check` events carry the submitted text -/
 inductive WireEv
   | check (service : Str) (cookie : Option Str) (origin wire : Str)
   | prune
+  | pruneExpired
+  | tick (now : Nat)
+  | request
   deriving Repr
 
 def WireEv.isPrune : WireEv → Bool
   | .prune => true
+  | .pruneExpired => true
   | _ => false
 
 /-- what `CsrfProtection.check` makes of a wire event -/
 def WireEv.decode (c : Cfg) : WireEv → Ev
   | .check svc ck o w => .check svc ck o (c.unquote w)
   | .prune => .prune
+  | .pruneExpired => .pruneExpired
+  | .tick n => .tick n
+  | .request => .request
 
 /-- run a wire history: every event is decoded, then handled as above
 (`step c st (e.decode c)` is `checkWire` for a check event) -/
